@@ -23,8 +23,10 @@ VARIANTS = {
     "asan": ["-O1", "-g", "-UNDEBUG", "-include", os.path.join(VERIF, "cpp", "verif_eigen_assert.h"),
              "-fsanitize=address,undefined", "-fno-sanitize-recover=all", "-fno-omit-frame-pointer"],
     "tsan": ["-O1", "-g", "-DNDEBUG", "-fsanitize=thread", "-fno-omit-frame-pointer"],
+    # development only (tools/coverage.sh): line coverage of the library under the checks' harnesses
+    "cov": ["-O0", "-g", "-DNDEBUG", "--coverage"],
 }
-LINK_FLAGS = {"O1": [], "assert": [], "asan": ["-fsanitize=address,undefined"], "tsan": ["-fsanitize=thread"]}
+LINK_FLAGS = {"O1": [], "assert": [], "asan": ["-fsanitize=address,undefined"], "tsan": ["-fsanitize=thread"], "cov": ["--coverage"]}
 
 
 class BuildError(Exception):
